@@ -19,7 +19,7 @@ from rules import Unsupported
 
 REPO = os.environ.get("ADLT_REPO", "/repo")
 BUILD = os.path.join(VERIF, "build")
-RLIMIT = os.environ.get("VERIF_RLIMIT", "40")
+RLIMIT = os.environ.get("VERIF_RLIMIT", "100")
 
 SEMANTIC = [
     ("postcondition not satisfied", "postcondition"),
